@@ -10,10 +10,15 @@ theorem snapshot_view (cfg : Cfg) (hg : cfg.Good) (s : St) (e : MRec) :
       some ⟨applyEdit s.live e, e.jn.getD s.stJn, e.sq.getD s.stSq, s.nextFile⟩ := by
   simp [viewAt, replayM, MAcc.step, snapshotRec, hg.carry, MAcc.view?, applyEdit]
 
+theorem snapshot_view' (cfg : Cfg) (hg : cfg.Good) (s : St) (e : MRec) (x : Nat) :
+    viewAt cfg ⟨[{ snapshotRec cfg s e with nf := x }], []⟩ 0 =
+      some ⟨applyEdit s.live e, e.jn.getD s.stJn, e.sq.getD s.stSq, x⟩ := by
+  simp [viewAt, replayM, MAcc.step, snapshotRec, hg.carry, MAcc.view?, applyEdit]
+
 /-- `ViewBounds` for a manifest with a single admissible view -/
 theorem ViewBounds.single {cfg : Cfg} {s : St} {d : Disk} {mf : LogFile MRec} {v : MView}
     (hc : curManifest d = some mf) (hu : mf.unsynced = []) (hv : viewAt cfg mf 0 = some v)
-    (h : v.sq ≤ s.seq ∧ v.nf ≤ s.nextFile ∧ (s.phase = .running → v.jn ≤ s.jcur)) : ViewBounds cfg s d := by
+    (h : v.sq ≤ seqHi s ∧ v.nf ≤ s.nextFile ∧ (s.phase = .running → v.jn ≤ s.jcur)) : ViewBounds cfg s d := by
   unfold ViewBounds
   rw [hc]
   simp only [Holds]
@@ -28,7 +33,7 @@ theorem Inv.other_manifest_step {cfg : Cfg} {s : St} {d : Disk} (h : Inv cfg s d
     (hnr : ∀ m, j.pc ≠ .rotRemove m) (hbcj : j.pc.beforeCommit = true)
     (ms : Files (LogFile MRec)) (hms : ∀ m, d.current = some m → lookup ms m = lookup d.manifests m)
     (hnd : ms.Pairwise (fun p q => p.1 ≠ q.1)) (j' : Job) (nf' : Nat) (hnf : s.nextFile ≤ nf')
-    (hpc' : ∀ m, j'.pc ≠ .rotRemove m)
+    (hpc' : ∀ m, j'.pc ≠ .rotRemove m) (hk : j'.kind = j.kind)
     (hjob : JobOK cfg { s with job := some j', nextFile := nf' } { d with manifests := ms } j') :
     Inv cfg { s with job := some j', nextFile := nf' } { d with manifests := ms } := by
   have hcm : curManifest { d with manifests := ms } = curManifest d := curManifest_other hms
@@ -36,12 +41,15 @@ theorem Inv.other_manifest_step {cfg : Cfg} {s : St} {d : Disk} (h : Inv cfg s d
   have hb := h.bounds hph
   have hnc : NoCommitYet s := by unfold NoCommitYet; rw [hj]; exact hbcj
   have hpf := phase_frame (d' := { d with manifests := ms }) h j' nf' hnf rfl rfl hcm hpc' ⟨j, hj, hnr⟩ (fun _ => hnc)
+    (fun j0 h0 => by
+      rw [hj] at h0; cases h0
+      exact ⟨hk, fun _ hb => by rw [hbcj] at hb; cases hb⟩)
   constructor
   · exact h.disk.frame (d' := { d with manifests := ms }) hcm rfl (fun _ _ _ _ _ _ _ _ => rfl) h.disk.tnodup hnd
       (fun _ hx => hx) (fun _ hx => hx)
   · exact h.mm.of_same hcm rfl
   · intro _
-    exact hb.of_same hcm (Nat.le_refl _) hnf (fun hr => ⟨hr, Nat.le_refl _⟩)
+    exact hb.of_same hcm (h.seqHi_step hj rfl rfl rfl hk (fun _ => hbcj)) hnf (fun hr => ⟨hr, Nat.le_refl _⟩)
   · exact hpf.1
   · exact hpf.2
   · intro hc; exact absurd hc hph
@@ -62,7 +70,8 @@ theorem JobOK.settled_early {cfg : Cfg} {s : St} {d : Disk} {j : Job} (h : JobOK
   rwa [JobManifest_early hpc] at this
 
 theorem inv_job_append_rotate {cfg : Cfg} {s : St} {d : Disk} (h : Inv cfg s d) {j : Job}
-    (hj : s.job = some j) (hpc : j.pc = .append) {rot : Bool} (hrot : rot = true ∨ s.manifestOpen = false)
+    (hj : s.job = some j) (hpc : j.pc = .append) {rot : Bool}
+    (hrot : rot = true ∨ s.manifestOpen = false ∨ s.manifestFailed = true)
     {s' : St} {d' : Disk} (hs : stepJob cfg s d j rot .ok = some (s', d')) : Inv cfg s' d' := by
   have hok := h.job
   rw [hj] at hok
@@ -80,7 +89,7 @@ theorem inv_job_append_rotate {cfg : Cfg} {s : St} {d : Disk} (h : Inv cfg s d) 
   have hsett := hok.settled_early he (by rw [hpc]; rfl)
   let j' : Job := { j with pc := .rotWrite s.nextFile }
   apply h.other_manifest_step hj hnr (by rw [hpc]; rfl) _ hms (nodup_set h.disk.mnodup _ _) j' (s.nextFile + 1)
-    (Nat.le_succ _) (by intro m hm; cases hm)
+    (Nat.le_succ _) (by intro m hm; cases hm) rfl
   rw [upd_eq]
   apply JobOK.late_next (d' := { d with manifests := d.manifests.set s.nextFile {} }) hok
     (by rw [hpc]; exact ⟨(by intro x; cases x), rfl⟩) j' ⟨rfl, rfl, rfl, rfl, rfl⟩ ⟨(by intro x; cases x), rfl⟩
@@ -107,13 +116,15 @@ theorem inv_job_append_rotate {cfg : Cfg} {s : St} {d : Disk} (h : Inv cfg s d) 
     exact hok.removals.imp (fun v _ => late_not_rm (j := j')
       ⟨(by intro l x; cases x), (by intro l x; cases x), (by intro l x; cases x)⟩)
   · intro hn; rw [he] at hn; cases hn
+  · exact fun _ => rfl
+  · exact fun _ => rfl
+  · intro hb'; cases hb'
 
 /-- the facts of a rotation pc: the new manifest `m` is not the current one -/
 theorem JobOK.rot_facts {cfg : Cfg} {s : St} {d : Disk} {j : Job} (h : JobOK cfg s d j) {e : MRec}
-    (he : j.edit = some e) {m : Nat} {mf' : LogFile MRec}
-    (hman : JobManifest cfg s d e j.pc = (Settled cfg s d (Mirror s) ∧ some m ≠ d.current ∧ m < s.nextFile ∧
-      lookup d.manifests m = some mf')) :
-    Settled cfg s d (Mirror s) ∧ some m ≠ d.current ∧ m < s.nextFile ∧ lookup d.manifests m = some mf' := by
+    (he : j.edit = some e) {m : Nat} {P : Prop}
+    (hman : JobManifest cfg s d e j.pc = (Settled cfg s d (Mirror s) ∧ some m ≠ d.current ∧ m < s.nextFile ∧ P)) :
+    Settled cfg s d (Mirror s) ∧ some m ≠ d.current ∧ m < s.nextFile ∧ P := by
   have := h.manifest
   unfold JobManifestOK at this
   rw [he] at this
@@ -131,14 +142,26 @@ theorem inv_job_rotWrite {cfg : Cfg} (hg : cfg.Good) {s : St} {d : Disk} (h : In
   simp only [Option.some.injEq, Prod.mk.injEq] at hs
   obtain ⟨rfl, rfl⟩ := hs
   have hnr : ∀ m, j.pc ≠ .rotRemove m := by rw [hpc]; intro m hm; cases hm
-  obtain ⟨hsett, hmc, hmlt, hlk⟩ := hok.rot_facts he (m := m) (mf' := ⟨[], []⟩) (by rw [hpc]; rfl)
+  obtain ⟨hsett, hmc, hmlt, hlk⟩ := hok.rot_facts he (m := m) (P := lookup d.manifests m = some ⟨[], []⟩)
+    (by rw [hpc]; rfl)
+  -- the numbers the snapshot record fixes: every table of the new view and its journal lie below `nextFile`
+  have hnums : (∀ t ∈ applyEdit s.live e, t < s.nextFile) ∧ e.jn.getD s.stJn < s.nextFile := by
+    obtain ⟨mf, v0, v, hparts, hlv, hvl, hed, hvok', _⟩ := h.commit_view hj he (by rw [hpc]; rfl)
+      (by rw [hpc]; exact ⟨(by intro x; cases x), rfl⟩)
+    have hm := hsett
+    unfold Settled at hm
+    have hm := (holds_some hm hparts.cur).2
+    rw [hlv] at hm
+    obtain ⟨m1, m2, _⟩ : Mirror s v := hm
+    rw [← m1, ← m2]
+    exact ⟨fun t ht => (hvok'.tables t ht).1, hvok'.jnf⟩
   have hms : ∀ c, d.current = some c →
       lookup (d.manifests.modify m (·.append (snapshotRec cfg s e))) c = lookup d.manifests c := by
     intro c hc
     rw [lookup_modify, if_neg (fun ec => hmc (by rw [hc, ec]))]
   let j' : Job := { j with pc := .rotSync m }
   have := h.other_manifest_step hj hnr (by rw [hpc]; rfl) _ hms
-    (pairwise_keys_modify (R := (· ≠ ·)) _ _ h.disk.mnodup) j' s.nextFile (Nat.le_refl _) (by intro x hx; cases hx)
+    (pairwise_keys_modify (R := (· ≠ ·)) _ _ h.disk.mnodup) j' s.nextFile (Nat.le_refl _) (by intro x hx; cases hx) rfl
   apply this
   rw [upd_eq]
   apply JobOK.late_next (d' := { d with manifests := d.manifests.modify m (·.append (snapshotRec cfg s e)) }) hok
@@ -154,9 +177,10 @@ theorem inv_job_rotWrite {cfg : Cfg} (hg : cfg.Good) {s : St} {d : Disk} (h : In
     · unfold Settled lastView at hsett ⊢
       rw [curManifest_other hms]
       exact hsett
-    · show lookup (d.manifests.modify m _) m = _
+    · show Holds (lookup (d.manifests.modify m _) m) _
       rw [lookup_modify, if_pos rfl, hlk]
-      rfl
+      simp only [Option.map_some, Holds, LogFile.append, List.nil_append, List.head?_cons]
+      exact ⟨rfl, hmlt, Nat.le_refl _, hnums⟩
   · intro _
     exact ⟨by rw [hpc]; rfl, curManifest_other hms⟩
   · have hl : lastView cfg { d with manifests := d.manifests.modify m (·.append (snapshotRec cfg s e)) } =
@@ -166,6 +190,9 @@ theorem inv_job_rotWrite {cfg : Cfg} (hg : cfg.Good) {s : St} {d : Disk} (h : In
     exact hok.removals.imp (fun v _ => late_not_rm (j := j')
       ⟨(by intro l x; cases x), (by intro l x; cases x), (by intro l x; cases x)⟩)
   · intro hn; rw [he] at hn; cases hn
+  · exact fun _ => rfl
+  · exact fun _ => rfl
+  · intro hb'; cases hb'
 
 theorem inv_job_rotSync {cfg : Cfg} (hg : cfg.Good) {s : St} {d : Disk} (h : Inv cfg s d) {j : Job}
     (hj : s.job = some j) {m : Nat} (hpc : j.pc = .rotSync m) {rot : Bool}
@@ -178,13 +205,20 @@ theorem inv_job_rotSync {cfg : Cfg} (hg : cfg.Good) {s : St} {d : Disk} (h : Inv
   simp only [Option.some.injEq, Prod.mk.injEq] at hs
   obtain ⟨rfl, rfl⟩ := hs
   have hnr : ∀ m, j.pc ≠ .rotRemove m := by rw [hpc]; intro m hm; cases hm
-  obtain ⟨hsett, hmc, hmlt, hlk⟩ := hok.rot_facts he (m := m) (mf' := ⟨[], [snapshotRec cfg s e]⟩) (by rw [hpc]; rfl)
+  obtain ⟨hsett, hmc, hmlt, hlk⟩ := hok.rot_facts he (m := m)
+    (P := Holds (lookup d.manifests m) fun mf => Holds mf.unsynced.head? fun r =>
+      mf = ⟨[], [{ snapshotRec cfg s e with nf := r.nf }]⟩ ∧ m < r.nf ∧ r.nf ≤ s.nextFile ∧
+      (∀ t ∈ applyEdit s.live e, t < r.nf) ∧ e.jn.getD s.stJn < r.nf) (by rw [hpc]; rfl)
+  rw [holds_iff] at hlk
+  obtain ⟨mf1, hlk, hr1⟩ := hlk
+  rw [holds_iff] at hr1
+  obtain ⟨r1, hr1h, hmf1, hr1a, hr1b, hr1c⟩ := hr1
   have hms : ∀ c, d.current = some c → lookup (d.manifests.modify m (·.sync)) c = lookup d.manifests c := by
     intro c hc
     rw [lookup_modify, if_neg (fun ec => hmc (by rw [hc, ec]))]
   let j' : Job := { j with pc := .rotSetMeta m }
   have := h.other_manifest_step hj hnr (by rw [hpc]; rfl) _ hms
-    (pairwise_keys_modify (R := (· ≠ ·)) _ _ h.disk.mnodup) j' s.nextFile (Nat.le_refl _) (by intro x hx; cases hx)
+    (pairwise_keys_modify (R := (· ≠ ·)) _ _ h.disk.mnodup) j' s.nextFile (Nat.le_refl _) (by intro x hx; cases hx) rfl
   apply this
   rw [upd_eq]
   apply JobOK.late_next (d' := { d with manifests := d.manifests.modify m (·.sync) }) hok
@@ -200,9 +234,11 @@ theorem inv_job_rotSync {cfg : Cfg} (hg : cfg.Good) {s : St} {d : Disk} (h : Inv
     · unfold Settled lastView at hsett ⊢
       rw [curManifest_other hms]
       exact hsett
-    · show lookup (d.manifests.modify m _) m = _
+    · show Holds (lookup (d.manifests.modify m _) m) _
       rw [lookup_modify, if_pos rfl, hlk]
-      rfl
+      subst hmf1
+      simp only [Option.map_some, Holds, LogFile.sync, LogFile.all, List.nil_append, List.head?_cons]
+      exact ⟨rfl, hr1a, hr1b, hr1c⟩
   · intro _
     exact ⟨by rw [hpc]; rfl, curManifest_other hms⟩
   · have hl : lastView cfg { d with manifests := d.manifests.modify m (·.sync) } = lastView cfg d := by
@@ -211,5 +247,8 @@ theorem inv_job_rotSync {cfg : Cfg} (hg : cfg.Good) {s : St} {d : Disk} (h : Inv
     exact hok.removals.imp (fun v _ => late_not_rm (j := j')
       ⟨(by intro l x; cases x), (by intro l x; cases x), (by intro l x; cases x)⟩)
   · intro hn; rw [he] at hn; cases hn
+  · exact fun _ => rfl
+  · exact fun _ => rfl
+  · intro hb'; cases hb'
 
 end GoLevel.Dur
